@@ -125,8 +125,9 @@ func (server *Server) Start() error {
 
 // Stop stops the server.
 func (server *Server) Stop() error {
+	// A client connection that could not be closed cleanly must not keep the server from stopping.
 	if err := server.ConnManager.Stop(); err != nil {
-		return err
+		log.Warnf("%s/%s connections closed with errors: %s", PackageName, Version, err)
 	}
 	verifPoint("stop.conns-closed", nil)
 
